@@ -64,6 +64,18 @@ def gen_case(seed, i):
         twins = ["r/devA/x", "r/devB/x"]
     steps = []
     live = list(files)
+    lflags = []
+    if rng.random() < 0.3:
+        # symbolic links reported (-S) or followed (-L): the links point OUT of the scanned directory, to copies
+        # of scanned files; an edit "of the link path" is an ordinary write, i.e. it changes the target and the
+        # target's time and leaves the link itself as it was
+        lflags = rng.choice([["-S"], ["-S"], ["-L"]])
+        for k in range(rng.randint(1, 2)):
+            sp = rng.choice(files)
+            src = [e for e in w.entries if e["t"] == "f" and e["p"] == sp][0]
+            w.add_file("store/t%d" % k, dict(src["c"]), mt=T0_NS + (50 + k) * 10**6)
+            w.add_symlink("r/%s/l%d" % (rng.choice(["a", "b"]), k), "../../store/t%d" % k)
+            live.append(w.entries[-1]["p"])
     counter = [0]
     for s in range(rng.randint(1, 6)):
         edits = []
@@ -108,7 +120,7 @@ def gen_case(seed, i):
         k = rng.randrange(len(steps) - 1)
         steps[k]["kill"] = {"kind": rng.choice(["write", "pwrite", "fsync", "openw"]), "ord": rng.choice([0, 1, 2, 3, 5]),
                             "act": rng.choice(["crashb", "crasha"])}
-    return {"i": i, "world": w.to_json(), "steps": steps, "twins": twins}
+    return {"i": i, "world": w.to_json(), "steps": steps, "twins": twins, "lflags": lflags}
 
 
 def gen_cases(tier, seed):
@@ -225,7 +237,7 @@ def run_case(case):
                 hist_sig.append(e["kind"] if ok else "-")
             clock += step["dt"]
             cfg = step["cfg"]
-            args = gen.cfg_args(cfg) + ["-f", "json"] + (["--rf-over", "0"] if False else [])
+            args = gen.cfg_args(cfg) + ["-f", "json"] + case.get("lflags", [])
             env = gen.cfg_env(cfg)
             plan = []
             if "kill" in step:
